@@ -12,6 +12,8 @@ import (
 	"bytes"
 	"crypto/x509"
 	"encoding/asn1"
+	"crypto/elliptic"
+	crand "crypto/rand"
 	"encoding/pem"
 	"fmt"
 	"math/big"
@@ -387,6 +389,8 @@ func c02(r *hx.Run) {
 	samples := c02SampleCases(r, notes)
 	runOrdered(r, len(samples), func(i int) vCase { return samples[i] })
 	c02RootOfTrust(r, notes)
+	// the pool that counts is the one the options carry NOW: trusted-roots transitions through one shared options value
+	cvPairHistories(r, 0x2202, "C02", map[bool]int{true: 1, false: 1}[thorough])
 	notes.flush(r, "c02_")
 }
 
@@ -434,6 +438,11 @@ func c02SampleCases(r *hx.Run, notes *vNotes) []vCase {
 			honest bool
 		}
 		synthRoot := synth.Certs["root"].Cert
+		carriedRoot, err := x509.ParseCertificate(blocks[2])
+		if err != nil {
+			panic(err)
+		}
+		lookRoot := c02Lookalike(rng, carriedRoot)
 		vs := []variant{
 			{"as-carried/pool:nil", nil, nil, true, true},
 			{"as-carried/pool:embedded-root-listed", nil, []*x509.Certificate{world.EmbeddedRoot}, false, true},
@@ -448,6 +457,13 @@ func c02SampleCases(r *hx.Run, notes *vNotes) []vCase {
 			{"1-block/pool:nil", l, nil, true, false},
 			{"root-replaced-by-same-named-synthetic/pool:nil", join(l, i, pemOf("CERTIFICATE", synthRoot.Raw)), nil, true, false},
 			{"root-replaced-by-same-named-synthetic/pool:that-root", join(l, i, pemOf("CERTIFICATE", synthRoot.Raw)), []*x509.Certificate{synthRoot}, false, false},
+			// a look-alike of the carried root valid at the same instants (same DN bytes, serial, validity, extensions; other key):
+			// everything about it passes except that nothing genuine is signed by it and no trusted pool lists it
+			{"root-replaced-by-in-date-lookalike/pool:nil", join(l, i, pemOf("CERTIFICATE", lookRoot.Raw)), nil, true, false},
+			{"root-replaced-by-in-date-lookalike/pool:embedded-root-listed", join(l, i, pemOf("CERTIFICATE", lookRoot.Raw)), []*x509.Certificate{world.EmbeddedRoot}, false, false},
+			{"root-replaced-by-in-date-lookalike/pool:that-lookalike", join(l, i, pemOf("CERTIFICATE", lookRoot.Raw)), []*x509.Certificate{lookRoot}, false, false},
+			{"root-replaced-by-in-date-lookalike/pool:lookalike+embedded", join(l, i, pemOf("CERTIFICATE", lookRoot.Raw)), []*x509.Certificate{lookRoot, world.EmbeddedRoot}, false, false},
+			{"as-carried/pool:in-date-lookalike-root", nil, []*x509.Certificate{lookRoot}, false, false},
 			{"intermediate-replaced-by-synthetic/pool:nil", join(l, pemOf("CERTIFICATE", synth.Certs["inter"].DER), ro), nil, true, false},
 			{"leaf-replaced-by-synthetic/pool:nil", join(pemOf("CERTIFICATE", synth.Certs["leaf"].DER), i, ro), nil, true, false},
 			{"pemtype[0]/pool:nil", join(pemOf("X509 CERTIFICATE", blocks[0]), i, ro), nil, true, false},
@@ -708,4 +724,22 @@ func rotTrustsExactly(w *world.World, opts *verify.Options, listed []string) str
 		}
 	}
 	return ""
+}
+
+
+// c02Lookalike: a self-signed certificate with the DN bytes, serial number, validity window, CA flags, key usage and CRL
+// distribution points of c, but a fresh key.
+func c02Lookalike(rng *rand.Rand, c *x509.Certificate) *x509.Certificate {
+	k := world.NewKey(rng, 0, elliptic.P256())
+	t := &x509.Certificate{SerialNumber: c.SerialNumber, RawSubject: c.RawSubject, NotBefore: c.NotBefore, NotAfter: c.NotAfter, IsCA: true,
+		BasicConstraintsValid: true, MaxPathLen: c.MaxPathLen, MaxPathLenZero: c.MaxPathLenZero, KeyUsage: c.KeyUsage, CRLDistributionPoints: c.CRLDistributionPoints}
+	der, err := x509.CreateCertificate(crand.Reader, t, t, &k.Priv.PublicKey, k.Priv)
+	if err != nil {
+		panic(err)
+	}
+	out, err := x509.ParseCertificate(der)
+	if err != nil {
+		panic(err)
+	}
+	return out
 }
